@@ -245,14 +245,19 @@ def gen_obj(rng, vals):
             except ValueError:
                 pass
     if c == 'DMS':
-        if r < 0.6:
+        if r < 0.5:
             return A.dec2dms(x)
+        if r < 0.6:   # not in normal form: minutes / seconds fields of 60 and more (the constructor accepts them)
+            return A.DMSAngle(rng.randrange(-360, 360), rng.choice([59, 60, 61, 75, rng.randrange(130)]),
+                              rng.choice([59.9999999999, 60.0, 60.5, 75.0, 3600.0, rng.uniform(0, 130)]))
         if r < 0.8:
             return A.DMSAngle(rng.choice([0, -0.0, -0, 12, -12]), rng.choice([0, 34, -34]),
                               rng.choice([0.0, 56.5, -56.5, 59.9999999999]))
         return A.DMSAngle(rng.randrange(-360, 360), rng.randrange(60), rng.uniform(0, 60))
-    if r < 0.6:
+    if r < 0.5:
         return A.dec2ddm(x)
+    if r < 0.6:
+        return A.DDMAngle(rng.randrange(-360, 360), rng.choice([59.99999999999, 60.0, 60.5, 75.25, 120.0, rng.uniform(0, 130)]))
     if r < 0.8:
         return A.DDMAngle(rng.choice([0, -0.0, -0, 12, -12]), rng.choice([0.0, 34.5, -34.5, 59.99999999999]))
     return A.DDMAngle(rng.randrange(-360, 360), rng.uniform(0, 60))
@@ -533,8 +538,38 @@ def main():
         e = gen_expr(rng, depth, vals)
         stats.add(f'expr:depth{depth_of(e)}')
         add('expr', 'expr ' + ser_expr(e), trace_expr(e))
-    for _ in range(600 * scale):
-        e1, e2 = gen_expr(rng, rng.randrange(0, 4), vals), gen_expr(rng, rng.randrange(0, 4), vals)
+    def tie_pair():
+        """two expressions whose values tie or nearly tie: the same operand twice, an operand and the same angle in
+        another class, an operand and its rounding, an operand not in normal form and its normal form"""
+        a = gen_obj(rng, vals)
+        e1 = ('L', a)
+        r = rng.random()
+        try:
+            d = a.dec()
+        except Exception:  # noqa
+            return e1, e1
+        if r < 0.2:
+            return e1, e1
+        if r < 0.5:
+            c = rng.choice(OBJ)
+            try:
+                b = {'DEC': lambda: A.DECAngle(d), 'HP': lambda: A.HPAngle(A.dec2hp(d)), 'GON': lambda: A.GONAngle(A.dec2gon(d)),
+                     'DMS': lambda: A.dec2dms(d), 'DDM': lambda: A.dec2ddm(d)}[c]()
+            except Exception:  # noqa
+                b = A.DECAngle(d)
+            return (e1, ('L', b)) if rng.random() < 0.5 else (('L', b), e1)
+        if r < 0.8:
+            e2 = ('round', rng.choice([0, 1, 3, 6, 9]), e1)
+            return (e1, e2) if rng.random() < 0.5 else (e2, e1)
+        e2 = ('neg', ('neg', e1))
+        return (e1, e2) if rng.random() < 0.5 else (e2, e1)
+
+    for it in range(900 * scale):
+        if it % 3 == 2:
+            e1, e2 = tie_pair()
+            stats.add('cmp:tie-pair')
+        else:
+            e1, e2 = gen_expr(rng, rng.randrange(0, 4), vals), gen_expr(rng, rng.randrange(0, 4), vals)
         op = rng.choice(['eq', 'ne', 'lt', 'gt'])
         f = {'eq': lambda x, y: x == y, 'ne': lambda x, y: x != y, 'lt': lambda x, y: x < y, 'gt': lambda x, y: x > y}[op]
 
